@@ -142,11 +142,12 @@ func (c cmdSpec) String() string {
 
 type caseSpec struct {
 	Index     int    `json:"index"`
-	Template  string `json:"template"` // focus | twice | roundtrip | random
-	Layout    string `json:"layout"`   // plain | linked-wt
-	WtCfgExt  bool   `json:"worktree_config_ext"`
-	HooksPath string `json:"hooks_path"`                 // default | abs | abs-space | rel | tilde
-	HPStore   string `json:"hooks_path_store,omitempty"` // local | home | wtcfg
+	Template  string `json:"template"`                        // focus | twice | roundtrip | random
+	Layout    string `json:"layout"`                          // plain | linked-wt (commands run in the linked work tree) | multi-main (a linked work tree exists, commands run in the main one)
+	WtCfgExt  bool   `json:"worktree_config_ext"`             // extensions.worktreeConfig = true
+	ExtFalse  bool   `json:"worktree_config_false,omitempty"` // extensions.worktreeConfig = false written explicitly (else unset when not enabled)
+	HooksPath string `json:"hooks_path"`                      // default | abs | abs-space | rel | tilde
+	HPStore   string `json:"hooks_path_store,omitempty"`      // local | home | wtcfg
 	FocusHook string `json:"focus_hook,omitempty"`
 	FocusCls  string `json:"focus_class,omitempty"`
 	FocusFil  string `json:"focus_filter,omitempty"` // store:key:class
@@ -416,6 +417,8 @@ func scopeOfStore(store string) string {
 		return "local"
 	case "wtcfg":
 		return "worktree"
+	case "wtother": // config.worktree of the work tree the commands do NOT run in (snapshot scope, see takeState)
+		return scopeOtherWt
 	case "file":
 		return "file"
 	}
@@ -720,6 +723,9 @@ func (cs caseSpec) className() string {
 	name := fmt.Sprintf("%s hook=%s filter=%s hooksPath=%s layout=%s seq=%s", cs.Template, fh, ff, cs.HooksPath, cs.Layout, strings.Join(seqShape, ","))
 	if cs.Fault != nil {
 		name += " fault=" + cs.Fault.trigger()
+	}
+	if cs.Template == "wtscope" {
+		name += " ext=" + cs.extSetting()
 	}
 	return name
 }
